@@ -116,6 +116,18 @@ CLAIMED = {
    note="Trusted: TLC, harness dumping, the Python .gr writer. Small graphs (<= 13 nodes). Vertex-cut specific placement is not constrained.",
    technique="TLA+ partition specification + TLC trace validation of real multi-host partitioner runs",
    engine="free+tv", design_ref="6/C19"),
+ "C20": dict(
+   category="model_checking",
+   text="AppsAbs.tla defines the correct answers mathematically over small graphs (Bellman-Ford hop / weighted distances, connected "
+        "components, Kruskal forest weight and size, triangle and k-core counts, existence of a maximal independent set of the reported "
+        "size, max-flow = min-cut, maximum bipartite matching = minimum vertex cover). bfs, sssp, connected-components, Boruvka, "
+        "triangles, k-core, independent set, preflow-push and bipartite matching are built from the working tree and run on generated "
+        "graphs (disconnected, self loops, parallel edges, skew, weights 0-1000) with every algorithm variant, serial/parallel and 1-8 "
+        "threads; what they print is parsed and TLC judges every result; crashes, hangs and failed self-verification are violations.",
+   note="Trusted: TLC, output parsing. Graphs have at most 9 nodes. PageRank (numeric tolerance) and the distributed applications are "
+        "not decided here; results are observed through printed summaries only.",
+   technique="TLA+ functional specification of the answers + TLC trace validation of real application runs over all algorithm variants",
+   engine="free+tv", design_ref="6/C20"),
  "C05": dict(
    category="model_checking",
    text="Each barrier (counting, MCS tree, dissemination, topology-aware for 6 socket layouts, the condition-variable "
